@@ -78,6 +78,14 @@ pub fn check(case: &Case) -> CaseResult {
         r.fail(format!("len() = {} for {n} commands", list.len()));
         return r;
     }
+    // the asynchronous connection must frame identically, also over a transport that takes only a
+    // few bytes per write
+    let max_write = [usize::MAX, 1, 7, 16, 64][case.how.iter().map(|h| *h as usize).sum::<usize>() % 5];
+    if let Err(e) = crate::cmdlab::both_flavours_agree(&Command::new("ping"), Some(&list), max_write) {
+        r.fail(e);
+        return r;
+    }
+    r.class_if(max_write != usize::MAX, "async_partial_writes");
     let bytes = sent_list_bytes(list);
     let want = expected_block(&singles);
     r.class(match n {
